@@ -661,6 +661,10 @@ class ConvexPolyhedron(Polyhedron):
 
         """
         _, principal_axes = np.linalg.eigh(self.inertia_tensor)
+        # The eigenvectors form an orthogonal matrix, but its determinant may be -1
+        # (a reflection). Flip one axis so that the shape is rotated, never mirrored.
+        if np.linalg.det(principal_axes) < 0:
+            principal_axes[:, 0] *= -1
         self._vertices = np.dot(self._vertices, principal_axes)
         self._sort_simplices()
 
